@@ -257,7 +257,7 @@ func (in *Interp) toNative(fr *frame, v value, t types.Type, depth int) (interfa
 		}
 		// error / Stringer: call the method
 		for _, mname := range []string{"Error", "String"} {
-			if m := in.prog.ssa.LookupMethod(v.t, nil, mname); m != nil &&
+			if m := in.findMethod(v.t, mname); m != nil &&
 				m.Signature.Params().Len() == 0 && m.Signature.Results().Len() == 1 {
 				if b, ok := m.Signature.Results().At(0).Type().Underlying().(*types.Basic); ok && b.Kind() == types.String {
 					res := in.call(fr, token.NoPos, m, []value{v.v})
